@@ -168,3 +168,103 @@ def mir_reachable(body, start):
         seen.add(x)
         st.extend(blocks[x]["term"]["succ"])
     return seen
+
+
+def range_bounds(I, idx):
+    """(lo, hi_exclusive) of a constant slice range value (a..b, ..b, a..=b, ..=b), or None."""
+    from interp import core, StructV, CallV
+    r = core(idx)
+    if isinstance(r, StructV) and (r.adt or "").startswith("std::ops::Range"):
+        lo = I.concrete(r.fields["start"]) if "start" in r.fields else 0
+        hi = I.concrete(r.fields["end"]) if "end" in r.fields else None
+        if "Inclusive" in r.adt and isinstance(hi, int):
+            hi += 1
+        if isinstance(lo, int) and isinstance(hi, int):
+            return lo, hi
+    if isinstance(r, CallV) and "RangeInclusive::new" in r.callee and len(r.args) == 2:
+        lo, hi = I.concrete(r.args[0]), I.concrete(r.args[1])
+        if isinstance(lo, int) and isinstance(hi, int):
+            return lo, hi + 1
+    return None
+
+
+EKU_FLAGS = {"any": "Any", "server_auth": "ServerAuth", "client_auth": "ClientAuth", "code_signing": "CodeSigning",
+             "email_protection": "EmailProtection", "time_stamping": "TimeStamping", "ocsp_signing": "OcspSigning"}
+
+
+def eku_pairs_interp(I):
+    """{x509-parser EKU flag -> ExtendedKeyUsagePurpose variant} from the interpreter's mutation log: every insertion of a
+    purpose (insert_extended_key_usage / push onto an extended_key_usages list) with the flag its path condition tests."""
+    import formula as F
+    from interp import core, StructV
+    pairs = {}
+    for tgt, kind, payload, n, f, cond in I.muts:
+        is_ins = kind.endswith("insert_extended_key_usage") or kind.endswith("Vec::push")
+        if not is_ins or not payload:
+            continue
+        v = core(payload[0])
+        if not (isinstance(v, StructV) and v.variant and "ExtendedKeyUsagePurpose::" in v.variant):
+            continue
+        flags = [a[1].rsplit(".", 1)[-1] for a in F.atoms(cond) if a[0] == "true" and a[1].rsplit(".", 1)[-1] in EKU_FLAGS and not F.counterexamples(cond, ("atom", a), "implies")]
+        for fl in flags:
+            pairs.setdefault(fl, set()).add(v.variant.split("::")[-1])
+    return {k: (sorted(v)[0] if len(v) == 1 else sorted(v)) for k, v in pairs.items()}
+
+
+# ---------------------------------------------------------------------------------------------------------------------
+# decision tables: the behaviour of a small conversion function as {assignment of named conditions -> outcome}
+# ---------------------------------------------------------------------------------------------------------------------
+def upper_bound(I, a):
+    """(place, inclusive upper bound) when atom `a` is a pure `place <= K` test (any spelling), else None."""
+    if a[0] == "inrange" and a[2] in (0, None) and isinstance(a[3], int):
+        return a[1], a[3] - (0 if a[4] else 1)
+    if a[0] == "cmp":
+        vals = I.atom_vals.get(a)
+        if not vals or len(vals) != 2:
+            return None
+        op = a[1]
+        l, r = vals
+        cl, cr = I.concrete(l), I.concrete(r)
+        if isinstance(cr, int) and not isinstance(cr, bool) and cl is None and op in ("<=", "<"):
+            return a[2], cr - (1 if op == "<" else 0)
+        if isinstance(cl, int) and not isinstance(cl, bool) and cr is None and op in (">=", ">"):
+            return a[3], cl - (1 if op == ">" else 0)
+    return None
+
+
+def decision_table(I, out, fn, classify, names):
+    """Evaluate fn's result for every assignment of the named boolean conditions.
+    classify(atom) -> (name, polarity) | None.  Returns ({assignment-tuple: outcome}, error)."""
+    import itertools
+    import formula as F
+    from interp import core, PhiV, StructV
+    v0 = core(out["value"])
+    if isinstance(v0, StructV) and v0.variant == "Ok" and isinstance(core(v0.fields.get("0")), PhiV):
+        alts = [(c, StructV(v0.adt, "Ok", {"0": x})) for c, x in core(v0.fields["0"]).alts]
+    elif isinstance(v0, PhiV):
+        alts = list(v0.alts)
+    else:
+        alts = [(True, v0)]
+    fails = [(c, v) for c, v, n, f in I.fails if f == fn or f in I.inlined]
+    amap = {}
+    for c, _ in alts + fails:
+        for a in F.atoms(c):
+            if a in amap:
+                continue
+            k = classify(a)
+            if k is None:
+                return None, "condition not recognised: %s" % F.show_atom(a)[-160:]
+            amap[a] = k
+    table = {}
+    for bits in itertools.product([False, True], repeat=len(names)):
+        env = dict(zip(names, bits))
+        asg = {a: (env[k[0]] == k[1]) for a, k in amap.items()}
+        hit_f = [v for c, v in fails if F.evalf(c, asg)]
+        hit = [v for c, v in alts if F.evalf(c, asg)]
+        if hit_f:
+            table[bits] = ("Err", hit_f[0])
+        elif len(hit) == 1:
+            table[bits] = ("Val", hit[0])
+        else:
+            return None, "at %s: %d alternatives apply" % (env, len(hit))
+    return table, None
